@@ -4275,9 +4275,45 @@ static Value eval_statement(ASTNode *stmt, Environment *env) {
         case AST_FOR: {
             /* Evaluate range */
             ASTNode *range_expr = stmt->as.for_stmt.range_expr;
-            if (range_expr->type != AST_CALL || strcmp(range_expr->as.call.name, "range") != 0) {
-                fprintf(stderr, "Error: for loop requires range expression\n");
-                return create_void();
+            if (range_expr->type != AST_CALL || !range_expr->as.call.name ||
+                strcmp(range_expr->as.call.name, "range") != 0) {
+                /* for x in <array>: visit the elements in index order.  As in the
+                 * VM the length is taken once, each element is read (bounds
+                 * checked) when its turn comes. */
+                Value at_args[2];
+                at_args[0] = eval_expression(range_expr, env);
+                if (at_args[0].type != VAL_ARRAY && at_args[0].type != VAL_DYN_ARRAY) {
+                    fprintf(stderr, "Error: for loop requires a range or an array\n");
+                    return create_void();
+                }
+                long long count = builtin_array_length(at_args).as.int_val;
+
+                int elem_var_index = env->symbol_count;
+                env_define_var(env, stmt->as.for_stmt.var_name, TYPE_INT, false, create_void());
+
+                Value elem_result = create_void();
+                for (long long i = 0; i < count; i++) {
+                    at_args[1] = create_int(i);
+                    env->symbols[elem_var_index].value = builtin_at(at_args);
+
+                    elem_result = eval_statement(stmt->as.for_stmt.body, env);
+                    if (elem_result.is_return) {
+                        env->symbol_count = elem_var_index;  /* Clean up before return */
+                        return elem_result;
+                    }
+                    if (elem_result.is_break) {
+                        elem_result = create_void();
+                        break;
+                    }
+                    if (elem_result.is_continue) {
+                        elem_result = create_void();
+                        continue;
+                    }
+                }
+
+                /* Remove loop variable from scope */
+                env->symbol_count = elem_var_index;
+                return elem_result;
             }
 
             if (range_expr->as.call.arg_count != 2) {
